@@ -1,7 +1,7 @@
 #!/bin/bash
 # every check in the thorough tier, cheapest first (separate work dir so it can run next to development)
 HERE="$(cd "$(dirname "$0")/.." && pwd)"
-export VERIF_WORK=$HERE/work_thorough VERIF_EVID=/tmp/thorough_evid VERIF_REPLAYS=/tmp/thorough_replays
+export VERIF_TLC_CACHE_DIR=/tmp/verif_tlc_cache VERIF_WORK=$HERE/work_thorough VERIF_EVID=/tmp/thorough_evid VERIF_REPLAYS=/tmp/thorough_replays
 cd $HERE
 for C in ${@:-C14 C15 C08 C02 C05 C16 C07 C12 C09 C06 C13 C11 C10 C04 C03 C01}; do
   s=$(date +%s)
